@@ -164,6 +164,24 @@ GridC06(std::mt19937_64 &rng, bool thorough)
       if (thorough) Exercise<ZipfDistribution<T>, T>("Z", static_cast<T>(7), static_cast<T>(7 + b - 1), a, rng, 12, false);
     }
   }
+  // the seam of the approximate class (bins 0..99 from a table, the rest from a formula): variates on / next to
+  // GetCDF(99) and GetCDF(100) for many bin counts - whether the binary search probes bin 100 itself depends on n
+  {
+    std::vector<long> ns;
+    for (long n = 101; n <= (thorough ? 1200 : 400); ++n) ns.push_back(n);
+    for (long n = 401; n < 400000; n = n * (thorough ? 21 : 11) / (thorough ? 20 : 10) + 1) ns.push_back(n);
+    for (long n : ns) {
+      for (double a : {0.5, 1.0, 2.0, 3.0}) {
+        const T mn = static_cast<T>(3);
+        const T mx = static_cast<T>(3 + n - 1);
+        ApproxZipfDistribution<T> gen{mn, mx, a};
+        std::vector<std::pair<uint64_t, const char *>> xs;
+        Around(gen.GetCDF(static_cast<T>(99)), xs);
+        Around(gen.GetCDF(static_cast<T>(100)), xs);
+        for (auto &[x, kind] : xs) Sample<ApproxZipfDistribution<T>, T>(gen, "A", mn, mx, a, x, "seam");
+      }
+    }
+  }
   // default-constructed generators always return 0
   {
     ZipfDistribution<T> z{};
